@@ -521,6 +521,23 @@ func subWriterFail() mon.Sub {
 							return
 						}
 					}
+					// ResetOp moves on to the next message on the SAME destination (the documented quick reset keeps
+					// everything but the unflushed fragments): the broken destination is still broken
+					w.ResetOp(ws.OpBinary)
+					for _, fu := range []wops.Op{{Kind: wops.Write, Sel: 1}, {Kind: wops.Write, Sel: 6}, {Kind: wops.Flush}} {
+						before := len(rec.Calls)
+						r := wops.Apply(w, fu, feed, 9)
+						trace = append(trace, fmt.Sprintf("after ResetOp: %s -> n=%d err=%v", r.Op, r.N, r.Err))
+						det["ops"] = trace
+						if len(rec.Calls) > before {
+							c.Fail("writer/sends-after-failure/ResetOp+"+kindName(fu), fmt.Sprintf("%s after a failed destination write and ResetOp sent more bytes to the same destination", r.Op), det)
+							return
+						}
+						if r.Err == nil {
+							c.Fail("writer/error-not-sticky/ResetOp+"+kindName(fu), fmt.Sprintf("%s after a failed destination write and ResetOp returned nil", r.Op), det)
+							return
+						}
+					}
 					c.Classf("cfg=%v|fail=%d|short=%d|%s,%s", cfg, j, short, ops[0], ops[1])
 				}
 			}
@@ -545,7 +562,7 @@ func main() {
 		Level:    "fault_enumeration",
 		Rule: "fault enumeration: (a) every valid complete frame stream up to depth 3 (quick) / 4 (thorough) on both sides, cut at EVERY byte offset in three flavours (EOF, final data together with EOF, injected transport error) through Reader, Reader+ControlFrameHandler, Reader+Discard, ReadMessage, ReadData, Read*Text, Read*Binary and NextReader, plus random longer streams at 40 random offsets, plus three stream shapes with messages above 1 MiB cut at frame starts, header ends, the 1 MiB mark and payload ends; oracle = the uncut run of the same stream (events must be a prefix), the message-boundary set of the reference reassembly (clean EOF only there), control payloads never shortened (callbacks, collected messages, pongs on the wire); " +
 			"(a') the same streams (and random ones with payloads up to 70000 bytes, and frames of 1 MiB .. 2 MiB+5 cut around the header, the 1 MiB mark and the payload end) cut at every offset through the frame-level decoders: a ws.ReadFrame read-until-EOF loop and a ws.ReadHeader + exact payload read loop: frames returned are exactly the whole frames before the cut, io.EOF only on a frame boundary, an injected error never turns into io.EOF; " +
-			"(b) upgrade requests and 101 responses cut at every offset of the head in the three flavours: error, no 101, no buffer; every destination write call of the handshake (request or response, write buffers 16..default) failing as error / short write / sticky: error returned; (c) every writer history of depth 2 (quick) / 3 (thorough) over the 30-op alphabet + Flush for 4 configurations with the destination failing at every call index as plain error or short write (0/1/3 bytes) + error, then 7 follow-up operations: each returns the error (ReadFrom's return is left open) and the destination sees no further call. distinct = (entry, cut frame kind/position, flavour, boundary, stream shape) / (config, failing call, mode, history).",
+			"(b) upgrade requests and 101 responses cut at every offset of the head in the three flavours: error, no 101, no buffer; every destination write call of the handshake (request or response, write buffers 16..default) failing as error / short write / sticky: error returned; (c) every writer history of depth 2 (quick) / 3 (thorough) over the 30-op alphabet + Flush for 4 configurations with the destination failing at every call index as plain error or short write (0/1/3 bytes) + error, then 7 follow-up operations, then ResetOp (same destination) + Write/Write/Flush: each returns the error (ReadFrom's return is left open) and the destination sees no further call. distinct = (entry, cut frame kind/position, flavour, boundary, stream shape) / (config, failing call, mode, history).",
 		Assumptions: []string{"the uncut run itself is checked by C04", "ReadFrom's return value after a failure is OPEN (the statement names writes and flushes); 'no further bytes' is enforced for it too"},
 		Subs:        []mon.Sub{subCutEnum(), subCutRandom(), subFrameCutEnum(), subFrameCutRandom(), subFrameCutLarge(), subReaderCutLarge(), subHandshakeCut(), subHandshakeWriteFault(), subWriterFail()},
 	})
